@@ -14,7 +14,12 @@ TB = ("Trusted beyond the Lean kernel (axioms propext/Classical.choice/Quot.soun
       "every run; no native_decide anywhere): the Spec.* transcription of the reference; that Model.* matches the "
       "Python code — established only by the differential run of the compiled model (Lean compiler) against the real "
       "code on generated inputs, by the regenerated tables (T1) and by reading; CPython semantics as modelled; the "
-      "Python harness. ")
+      "Python harness. The cross-property theorems of Props/Coherence.lean and Props/Concrete.lean (digest / checksum "
+      "lengths of the concrete hashes, shared-definition coherence) are built by setup_cmd on every run but their "
+      "axioms are audited, and leanchecker is run, in the thorough tier only (quick evidence lists them under "
+      "system_theorems, not obligations). Inputs outside a property's quantifier are exercised as observations "
+      "(evidence: out_of_domain_divergences), never as verdicts; auxiliary observables the harness cannot reach in "
+      "a tree are reported as unobservable_cases. ")
 
 P = {
  'C01': dict(
